@@ -260,6 +260,7 @@ func CheckC16(r *core.Run) {
 		r.AddSample(events[len(events)/2])
 	}
 	tr := &core.Trace{Name: "c16-headers", Meta: "header damage enumeration", Events: events}
+	runSelfTestN(r, "HeaderTrace", "HeaderTrace.cfg", []*core.Trace{tr}, headerMutants())
 	rej := r.Judge(core.JudgeOpts{Module: "HeaderTrace", Config: "HeaderTrace.cfg", Timeout: 10 * time.Minute, HeapMB: 2048}, []*core.Trace{tr})
 	for _, d := range r.TakeDevs() {
 		name := d.Kind[len("dev:"):]
